@@ -7,12 +7,12 @@ CLAIMED = {
         text="The reference construction is a TLA+ recursive definition; TLC checks its structural laws for every "
              "list length in the bound and emits each tree shape; every shape is folded with real Blake2b-256 on "
              "seeded random items and compared with the implementation (spec verdict is the oracle).",
-        note="Blake2b-256 collision freedom; bound N=70 (quick) / 300 (thorough) list lengths; random item contents.",
+        note="Blake2b-256 collision freedom; bound N=70 (quick) / 300 (thorough) list lengths; random item contents. Item size classes (0 ... 70000 bytes) are a dimension.",
         design_ref="§5 C35", engine="ledger-decision"),
     "C03": dict(
         technique="TLA+ transcription of the RFC 8949 head grammar (CborHead.tla), TLC proves ListId(Encode(form,n,v)) = v over all header forms and enumerates every encoding; replay on cbor.DecodeIdFromList and on every tagged-sum decoder re-headed in each form",
         text="The head grammar and ListId are a TLA+ definition; TLC checks its self-consistency for every admissible array-header form and emits each encoding with the expected id; the driver feeds them to DecodeIdFromList and re-heads a valid minimal encoding of each variant of 28 tagged-sum decoders in every form (same variant or an error is required).",
-        note="bounded list lengths / ids (n in {1,2,3,23,24,25}, ids up to 65536); variants taken from library constructors and fixtures.",
+        note="bounded list lengths / ids (n in {1,2,3,23,24,25}, ids up to 65536); variants taken from library constructors and fixtures. Reading decision: every admissible header form must decode to the named variant; a refusal is reported (keys :refused).",
         design_ref="§5 C03", engine="ledger-decision"),
     "C05": dict(
         technique="TLA+ decision structure of the address header/layout/length/HRP/pointer-varint rules (Address.tla), TLC enumeration of all 256 header bytes x length deviations x pointer triples x HRPs, replay on the address API",
@@ -42,7 +42,7 @@ CLAIMED = {
     "C46": dict(
         technique="TLA+ model of the DMQ authenticator (DmqAuth.tla: registered pools, op-cert counter cache, verifier, insecure flag), TLC invariants + transition cover + bounded histories, replayed on the real authenticator with real keys",
         text="TLC checks OnlyAuthentic, RejectKeepsState, Monotone, CacheIsLastAccepted over 2 pools x 3 counters x 8 validity triples and all 3-call histories, and emits 13k behaviours (incl. seeded 24-call chains) with the expected verdict and abstract state after every call; the driver replays them with real ed25519 cold keys, op-cert signatures and depth-6 KES.",
-        note="symbolic crypto in the model; counters mapped order-isomorphically onto 0..2^64-1.",
+        note="symbolic crypto in the model; counters mapped order-isomorphically onto 0..2^64-1. Replayed components and registration churn (probes after every state-changing call) are dimensions.",
         design_ref="§5 C46", engine="dmq"),
     "C06": dict(
         technique="TLA+ model of multi-asset values as partial maps (MultiAsset.tla), TLC proves the group laws / canonical encoding on the model and enumerates pairs and triples; replay on MultiAsset[*big.Int] at homomorphic scales up to 2^64+1",
@@ -57,7 +57,7 @@ CLAIMED = {
     "C15": dict(
         technique="TLA+ model of the blocking API layer over the engine's shutdown (ClientApi.tla), instantiated from a table whose deciding attributes are extracted from the tree under test (go/ast); TLC liveness per (API call, adversarial peer script); each case executed by a raw peer against the real client/server inside a real Connection; plus four life-cycle models (ServerRestart.tla, ClientStop.tla, KeepAliveTimer.tla, BulkSend.tla) whose TLC-enumerated behaviours are replayed the same way",
         text="Call/handler/cleanup goroutines, DoneChan closing only after recvLoop exits, handlers running inside recvLoop; liveness ConnEnded ~> CallReturned, CloseCalled ~> CloseReturned and ErrorChanClosed and NoGoroutines; TLC decides for every (API, script of <= 2-3 steps over correct / wrong-kind / forbidden / surplus reply, silence, truncation, malformed bytes, stalled reader, close) whether the call returns and what leaks; prediction and observation (return within a generous deadline, Close returns, ErrorChan closed, goroutine snapshot diff) must agree both ways.",
-        note="17 blocking calls of the 7 anchored files; a hang verdict needs deadline + peer wrote everything + two goroutine dumps showing the caller parked in the library; server restarts after Done, client Stop() paths, the keep-alive timer chain and bulk sends (>= 1 MiB) to a stalled peer that then closes are covered by the life-cycle models; Leios/DMQ clients not in the table.",
+        note="17 blocking calls of the 7 anchored files; a hang verdict needs deadline + peer wrote everything + two goroutine dumps showing the caller parked in the library; server restarts after Done, client Stop() paths, the keep-alive timer chain and bulk sends (>= 1 MiB) to a stalled peer that then closes are covered by the life-cycle models; Leios/DMQ clients not in the table. Silence that outlasts a state timeout (tmo scripts, timeouts scaled down through the public options) is part of the case space.",
         design_ref="§5 C15", engine="clients"),
     "C16": dict(
         technique="TLA+ reference automata of all mini-protocols (MiniProtocols.tla) and product construction with the implementation's state maps as TLC constants (ProtoEquiv.tla, TB); TLC-emitted label sequences with one-step deviations replayed through the real engine in both roles",
@@ -67,7 +67,7 @@ CLAIMED = {
     "C17": dict(
         technique="TLA+ specification of which protocols a Connection constructs/registers/starts per configuration and of the muxer's direction gate (Connection.tla), TLC enumeration of all configurations x versions x inbound segments, replayed on real Connections against a raw handshake peer",
         text="280 configurations (client/server, NtN/NtC/DMQ, duplex requested or not, peer's mode, version flags) x one request and one response segment per protocol id; observed: accessor nil-ness, handler invocation, connection error; oracle = the specification written from the network spec.",
-        note="Leios protocol ids treated as unspecified on NtN; ConnectionLegacy.cfg keeps the pre-fix design and must be rejected by TLC.",
+        note="Leios protocol ids treated as unspecified on NtN; ConnectionLegacy.cfg keeps the pre-fix design and must be rejected by TLC. Local options that never go on the wire (WithKeepAlive) are a dimension of a configuration.",
         design_ref="§5 C17", engine="connection"),
     "C21": dict(
         technique="TLA+ model of the chain-sync client (ChainSyncClient.tla: Sync, syncLoop, handlers, Stop over the engine's bounded send queue) sharing its observer (ChainSyncObs.tla) with the trace validator (ChainSyncTrace.tla); traces of the real client against the library's server validated by TLC",
@@ -82,7 +82,7 @@ CLAIMED = {
     "C10": dict(
         technique="TLA+ observer specification of the protocol engine (EngineObs.tla): traces recorded at the engine's linearization points on both endpoints validated line by line by TLC (EngineTrace.tla); TLC-generated conversation plans (EnginePlans.tla)",
         text="Both endpoints of real conversations (real Protocol instances, real muxers, fragmenting pipe) are traced with one recorder; TLC checks on every trace that the messages admitted by the receiver are exactly the messages dequeued by the sender (64-bit content hash, length, order), that segment lengths read equal segment lengths written, and the split/reassembly arithmetic (payload buffer, 65535 split, leftover data).",
-        note="test protocol vproto over the public protocol.New API; message sizes 1..200000 bytes around the 65535 boundary; content compared by FNV-64 hash; schedules: seeded perturbation in the hooks + fragmented reads.",
+        note="test protocol vproto over the public protocol.New API; message sizes 1..200000 bytes around the 65535 boundary; content compared by FNV-64 hash; schedules: seeded perturbation in the hooks + fragmented reads. Since the seeding waves: the raw peer's segmentation (each/one/bytes/straddle) is a plan dimension, messages are compared again at the application (type, payload, Cbor() intact), conversations of several MiB and longer than every queue.",
         design_ref="§5 C10, Appendix A", engine="engine"),
     "C11": dict(
         technique="TLA+ reference semantics of an endpoint under adversarial scripts (EnginePlans.tla) + observer specification (EngineObs.tla); TLC enumerates every script up to a bound with the predicted outcome, replayed by a raw segment-level peer on the real engine; traces validated by TLC",
@@ -92,22 +92,22 @@ CLAIMED = {
     "C12": dict(
         technique="TLA+ observer specification (EngineObs.tla) validated on traces of TLC-generated conforming conversations with and without client pipelining (EnginePlans.tla)",
         text="TLC checks on every trace: dequeue order is enqueue order per sender and exactly once, send transitions follow dequeue order each exactly once (queued transitions of pipelined batches included), nothing is written before the first message's transition or after a refused one, batch size <= 20, and conforming (pipelined) conversations complete cleanly on both sides.",
-        note="vproto; conversations of <= 2 (thorough 3) operations x sizes x pipelining; schedules by seeded perturbation.",
+        note="vproto; conversations of <= 2 (thorough 3) operations x sizes x pipelining; schedules by seeded perturbation. Plans misuse-* (a first message the sender may not send is refused and never written) and sendlim-* (send-side byte accounting over long multi-segment conversations).",
         design_ref="§5 C12, Appendix A", engine="engine"),
     "C13": dict(
         technique="TLA+ observer specification (EngineObs.tla): admission events logged under the pending-bytes mutex validated by TLC; TLC-generated back-pressure scenarios (fill / at limit / over limit, slow consumer)",
         text="For limits 200/4000/70000 bytes and a slow consumer, every admission event must show len <= limit, pending <= limit, the limit of the state that was read, and exact pending-byte accounting against releases; a message one byte over the limit must end the protocol with an error; conversations at and below the limit must complete (no deadlock).",
-        note="the 16 MiB read-buffer clause is exercised by three rows in both tiers; receive queues of capacity 1 and 3 (plans bpq-*); limits are applied by the engine to the sender's queue too, so each endpoint is given only its receive-side limit.",
+        note="the 16 MiB read-buffer clause is exercised by three rows in both tiers; receive queues of capacity 1 and 3 (plans bpq-*); limits are applied by the engine to the sender's queue too, so each endpoint is given only its receive-side limit. Goroutine-level model with a receive queue of capacity 1 (EngineSmallQueue.cfg; EngineLockAcross.cfg must be rejected).",
         design_ref="§5 C13, Appendix A", engine="engine"),
     "C14": dict(
         technique="TLA+ observer specification (EngineObs.tla) with timer events stamped by the stateLoop's clock; TLC-generated stall scenarios",
         text="TimerArm only for the current non-initial state with that state's timeout; Timeout only when armed, for the current state and not before the timeout elapsed; every state change disarms; a stall of 2.6x the timeout in a timed state must end with a timeout error and stop, a stall in the initial state must not.",
-        note="timeouts scaled to 150 ms; only lower bounds on elapsed time are asserted (no upper bounds, which would be load dependent).",
+        note="timeouts scaled to 150 ms; only lower bounds on elapsed time are asserted (no upper bounds, which would be load dependent). No expectation depends on the machine being fast: only stalls of 16 T demand a timeout, spurious timeouts are judged per Timeout event by the observer; plans timer-self-* make the local holder of agency stall.",
         design_ref="§5 C14, Appendix A", engine="engine"),
     "C27": dict(
         technique="TLA+ reference model of the ledger's consumed/produced balance (ValueConservation.tla), TLC invariants + seeded enumeration over certificate multisets; replay on each era's UtxoValidateValueNotConservedUtxo",
         text="Consumed and produced are TLA+ definitions written from the ledger specification (inputs, withdrawals, refunds, mint; outputs, fee, stake/pool/DRep deposits, proposals, donation), coin and per asset; TLC emits balanced / off-by-one cases for every certificate multiset; each is built as a concrete era transaction + mock ledger state and replayed at three scales and after a CBOR round trip.",
-        note="legacy deregistration refund = current keyDeposit (mock ledger state has no per-credential deposits); sampled grid seeded by VERIF_SEED; known finding F-C27-b (all-zero policy id treated as ada).",
+        note="legacy deregistration refund = current keyDeposit (mock ledger state has no per-credential deposits); sampled grid seeded by VERIF_SEED; known finding F-C27-b (all-zero policy id treated as ada). The phase-2 flag and the ledger-state history of a registered pool (unknown / registered / retiring) are dimensions.",
         design_ref="§5 C27", engine="ledger-decision"),
     "C32": dict(
         technique="TLA+ decision structure of the collateral rules (Collateral.tla), TLC grid around the exact threshold, replay on CBOR-decoded Alonzo..Dijkstra transactions through each era's rule functions and rule list",
@@ -122,7 +122,7 @@ CLAIMED = {
     "C41": dict(
         technique="TLA+ transcription of chain comparison (Selection.tla), TLC proves antisymmetry, transitivity, shallow/deep rules and order independence of Preferred on the model; all pairs and permutation cases replayed on the real selector in several concrete worlds",
         text="Compare / IsDeepFork / CompareWithDensity / Preferred written from the property and the consensus design; TLC checks the order laws over all pairs and triples of a small tip universe and emits them; the driver replays every pair in small, top-of-uint64 and mainnet-like worlds and calls Preferred in all candidate orders.",
-        note="homogeneous tip sets (all windowed or all simple); small universe in TLC.",
+        note="homogeneous tip sets (all windowed or all simple); small universe in TLC. Legacy density ratios with spans up to 3e8 (exact order by cross-multiplication) are a dimension.",
         design_ref="§5 C41", engine="consensus"),
     "C08": dict(
         technique="TLA+ decision structure of output-quantity admissibility (OutputValue.tla) incl. the PairForge scenario, TLC enumeration of quantity class x CBOR integer form x era x output form; replay through the era decoders and rule lists",
@@ -137,42 +137,42 @@ CLAIMED = {
     "C19": dict(
         technique="TLA+ model of the handshake client against an adversarial responder (Handshake.tla, ClientSafe), TLC enumeration of every acceptance message; replayed by a raw scripted responder on handshake.Client and NewConnection",
         text="ClientDoneOk => v proposed, data well-formed for v, magic equal; TLC enumerates known/unknown, proposed/unproposed versions x data shapes x magics; a raw segment-level responder sends each acceptance to the real client.",
-        note="HandshakeAdvLegacy.cfg keeps the pre-fix design and must fail ClientSafe.",
+        note="HandshakeAdvLegacy.cfg keeps the pre-fix design and must fail ClientSafe. The set of versions actually sent (read off the wire) is a dimension; an acceptance is judged against what was sent, not against the configuration.",
         design_ref="§5 C19", engine="handshake"),
     "C23": dict(
         technique="TLA+ model of the block-fetch client calls (BlockFetchClient.tla: GetBlock, GetBlockRange, handlers, busy lock) against every server response shape, TLC invariants + termination; each (call, point, shape, close, follow-up) case replayed by a raw peer serving real blocks to the real client",
         text="GetBlockSound/GetBlockExact (a block is returned only if exactly one block with the point's hash was served), RangeOrder/RangeReturn, BusyLock, and liveness Termination are model-checked for all shapes (NoBlocks; StartBatch.BatchDone; one matching / non-matching block; several blocks; each optionally followed by close); the real client's observed outcome must be one of the specification's terminal outcomes, a follow-up call proves the lock and Idle state were given back.",
-        note="a 'hang' verdict needs the deadline, the peer having written everything, and two goroutine dumps showing the caller parked in GetBlock; the as-code cfgs keep the pre-fix design and must fail.",
+        note="a 'hang' verdict needs the deadline, the peer having written everything, and two goroutine dumps showing the caller parked in GetBlock; the as-code cfgs keep the pre-fix design and must fail. Client configuration (which callbacks are set) and two-request histories on one client are dimensions.",
         design_ref="§5 C23", engine="clients"),
     "C25": dict(
         technique="TLA+ model of concurrent request/response callers with and without a call mutex (ReqResp.tla, invariant OwnAnswer), TLC exhaustive for 3 goroutines x 2 calls + emitted schedules; replayed on the four real clients against the library's servers with tagging callbacks",
         text="Every returned call must carry its own request's tag (query echo, HasTx parity, NextTx/GetSizes counters, SubmitTx parity, GetPeers(n) -> n peers), across acquire/re-acquire/release; schedules are issued in each history's happens-before order with seeded delays at the Enqd hook (between enqueue and wait), followed by barrier-released stress rounds.",
-        note="ReqRespNoMutex.cfg keeps the design without a call mutex and must violate OwnAnswer.",
+        note="ReqRespNoMutex.cfg keeps the design without a call mutex and must violate OwnAnswer. The form of the reply (a well-formed reply the typed decoder refuses) is a dimension.",
         design_ref="§5 C25", engine="clients"),
     "C26": dict(
         technique="TLA+ decision function of the validity interval per era (Validity.tla), TLC full grid, replay under order-isomorphic time maps through VerifyTransaction and rule by rule",
         text="Accept = (start absent or s >= start) and (end absent or s < end) from Allegra on, s <= ttl in Shelley; TLC emits the full grid era x start x end x slot; each case is replayed under 6 monotone maps onto concrete slots (including 0, 2^63, 2^64-1) in 7 eras on the whole rule list.",
-        note="known finding F-C26z (a present bound of 0 is indistinguishable from absent in the Transaction interface).",
+        note="known finding F-C26z (a present bound of 0 is indistinguishable from absent in the Transaction interface). The phase-2 flag (is_valid = false) is a case dimension (FlagIrrelevant).",
         design_ref="§5 C26", engine="ledger-decision"),
     "C28": dict(
         technique="TLA+ model of witness requirements with symbolic signatures (Witness.tla), TLC enumeration of lock kinds x witnesses x validity; replay with real ed25519 keys and Byron roots through each era's signature / required-signer / collateral-witness rules",
         text="Accept <=> all supplied signatures valid and owners(inputs + collateral) and required signers witnessed; TLC checks 8 meta-invariants and emits ~29k cases; the driver builds signed transactions (corruption = flipped bit / other key / other message) in 7 eras.",
-        note="symbolic crypto in the model; over-rejections (Byron-locked collateral with bootstrap witness) are observations.",
+        note="symbolic crypto in the model; over-rejections (Byron-locked collateral with bootstrap witness) are observations. The phase-2 flag and the multiplicity of listed witnesses / signers are dimensions.",
         design_ref="§5 C28", engine="ledger-decision"),
     "C29": dict(
         technique="TLA+ recursive evaluator of native scripts (NativeScript.tla), TLC enumeration of scripts x contexts with monotonicity invariants; replay on decoded scripts (several encodings) through NativeScript.Evaluate and the era rules, hashes checked",
         text="Eval(script, ctx) with the ledger semantics (absent start fails invalid-before, absent end fails invalid-hereafter) over trees of depth <= 3; TLC emits 81k (script, context) pairs; replayed under 5 time maps and 3-4 encodings, and at rule level on signed transactions.",
-        note="known findings F-C29-* (0 / MaxUint64 stand for absent bounds in the API).",
+        note="known findings F-C29-* (0 / MaxUint64 stand for absent bounds in the API). The phase-2 flag at rule level is a dimension.",
         design_ref="§5 C29", engine="ledger-decision"),
     "C30": dict(
         technique="TLA+ model of the fee/size rules parametric in the word size (Fee.tla): TLC full grid at W=2^3 and edge grid at W=2^8 with overflow classes; replay at 64 bits (homogeneous scaling) on CalculateMinFee and real transactions of every era with non-canonical padding",
         text="Size(tx) = |orig| - [Alonzo..Conway and 4-element envelope]; MinFee = a*Size + b with overflow reported; AcceptFee, AcceptSize; TLC proves the boundary behaviour and tags each case with its class; the driver scales the grid to 64 bits and builds real transactions whose original encoding differs from the re-encoding.",
-        note="over-estimated size for indefinite-length envelopes is an observation (errs on the strict side); Dijkstra's four-element envelope is property-silent.",
+        note="over-estimated size for indefinite-length envelopes is an observation (errs on the strict side); Dijkstra's four-element envelope is property-silent. The phase-2 flag is a dimension.",
         design_ref="§5 C30", engine="ledger-decision"),
     "C31": dict(
         technique="TLA+ token-level model of the language-views encoding and the script-data-hash decision table (LangViews.tla); TLC enumeration; independent byte writer compared with EncodeLangViews, rule rows executed on real Alonzo..Dijkstra transactions",
         text="Language views as abstract CBOR token sequences (length-then-lex key order, V1 double-wrapped indefinite list) for every subset of Plutus versions, and (redeemers?, datums?, declared hash kind) -> accept/reject; hashes computed with Blake2b-256 in the driver over non-canonical original bytes.",
-        note="languages used = Plutus scripts in the witness set (reference scripts not exercised).",
+        note="languages used = Plutus scripts in the witness set (reference scripts not exercised). The phase-2 flag and the encoding shape of decoded redeemers / datums (OriginalBytes) are dimensions.",
         design_ref="§5 C31", engine="ledger-decision"),
     "C34": dict(
         technique="TLA+ commitment structure per era with a symbolic hash (BodyHash.tla); TLC era x mutated component x validation flag; replay: byte/structural mutations of real blocks that still decode without validation must fail with validation on",
@@ -197,7 +197,7 @@ CLAIMED = {
         text="DrainSound (WaitForDrain returned nil => every block submitted before the wait is finished) is model-checked over all interleavings "
              "of small configurations, including blocks held inside decode/validate/apply; the same schedules are forced on the real pipeline and "
              "a monitor checks the real run at the moment WaitForDrain returns.",
-        note="as C42; the monitor observes 'finished' for good blocks through ApplyFunc returning.",
+        note="as C42; the monitor observes 'finished' for good blocks through ApplyFunc returning. The Stop scenarios (Stop and WaitForDrain together) are replayed as well.",
         design_ref="§5 C43, Appendix B", engine="pipeline"),
     "C44": dict(
         technique="TLA+ spec of the pipeline (Pipeline.tla) with expiring submit contexts, TLC invariants DenseSeq/QuiescentComplete + liveness OkEventuallyApplied, gate-forced replay with forced context expiry under backpressure",
